@@ -76,6 +76,14 @@ def select_boundary(tier, U, pool, rng):
     kinds = {n: _X["images"][n]["kind"] for n in names}
     binds = pool.map(_xbindable, [("x:" + n, list(enumerate(rec[kinds[n]]))) for n in names], chunksize=1)
     cases, stats = [], {}
+    # vacuity guard: on images that came out as the catalogue names them, every boundary role binds somewhere
+    for kind in sorted(set(kinds.values())):
+        imgs = [n for n in names if kinds[n] == kind]
+        if all(_X["images"][n].get("ok") for n in imgs):
+            bound = set(rec[kind][k]["role"] for n, ks in zip(names, binds) if kinds[n] == kind for k in ks)
+            dead = sorted(set(bd["roles"][kind]) - bound)
+            if dead:
+                die_broken("boundary roles %s bind on no %s image (gen/c01_extras.py and spec/Corrupt.tla disagree)" % (dead, kind))
     for n, ks in zip(names, binds):
         kind = kinds[n]
         R = rec[kind]
